@@ -1,6 +1,8 @@
 import Toq.Model.ChannelOps
 import Toq.Spec.ChannelOps
 import Toq.Proofs.ChannelOps
+import Toq.Model.ChannelOpsExtra
+import Toq.Proofs.ChannelOpsExtra
 /-!
 # C04 — one linear map, many representations: all of them act identically
 
@@ -378,6 +380,227 @@ theorem channelDim_flat (ks : List (Mat α)) (d_in d_out : Nat) (hs : Shaped ks 
     channelDimKraus (KrausArg.flat ks) true .none = .ok ⟨d_in, d_in, d_out, d_out, some ks.length⟩ :=
   channelDimKraus_cp ks d_in d_out hs h
 
+/-! ## `choi_to_kraus`: the assembly of the Kraus operators from the LAPACK factors
+
+`choiToKraus` (`Toq/Model/ChannelOpsExtra.lean`) mirrors everything `choi_to_kraus` does around its call of
+`np.linalg.eigh` / `np.linalg.svd`; the factors are inputs.  `Reproduces J as bs do0 di0 do1 di1` is the
+defining relation `Σ_k vec(A_k) vec(B_k)ᴴ = J` (column-major `vec`), the hypothesis of
+`kraus_of_choi_reproduces`. -/
+
+/-- **Defining relation ⇔ Choi matrix.**  For a family `(A_k, B_k)` and a matrix `J` of shape
+    `(di0·do0) × (di1·do1)`: `Σ_k vec(A_k) vec(B_k)ᴴ = J` holds exactly when `J` has the entries of
+    `Σ_ij E_ij ⊗ Φ(E_ij)` for `Φ = Σ_k A_k · B_kᴴ` (all dimensions, rectangular included, `J` Hermitian or not). -/
+theorem reproduces_iff_choi (J : Mat α) (as bs : List (Mat α)) (di0 di1 do0 do1 : Nat)
+    (hJr : J.r = di0 * do0) (hJc : J.c = di1 * do1) :
+    Reproduces J as bs do0 di0 do1 di1 ↔
+      ∀ i a j b, i < di0 → a < do0 → j < di1 → b < do1 →
+        J.e (i * do0 + a) (j * do1 + b) = applySpec as.length (fam as) (fam bs) di0 di1 (unit i j) a b := by
+  constructor
+  · intro h i a j b hi ha hj hb
+    rw [applySpec_unit _ _ _ _ _ i j a b hi hj]
+    exact (reproduces_entry J as bs di0 di1 do0 do1 hJr hJc h i a j b hi ha hj hb).symm
+  · intro h p q hp hq
+    obtain ⟨h1, h2, h3⟩ := index_split p di0 do0 (hJr ▸ hp)
+    obtain ⟨h4, h5, h6⟩ := index_split q di1 do1 (hJc ▸ hq)
+    have := h (p / do0) (p % do0) (q / do1) (q % do1) h1 h2 h4 h5
+    rw [h3, h6, applySpec_unit _ _ _ _ _ _ _ _ _ h1 h4] at this
+    rw [this]
+    simp only [Mat.vecF]
+
+/-- **`choi_to_kraus`, general (SVD) branch.**  `J` not Hermitian, `dim` decoded by `channel_dim` to
+    `d`; let `(U, S, Vh)` be *any* factors with as many singular values as columns of `U` and rows of `Vh`
+    whose kept terms (`abs(s) > tol`) reproduce `J`, `Σ_{i kept} s_i·U[p,i]·Vh[i,q] = J[p,q]`, and let `sqrt`
+    be any function with `sqrt(s)·conj(sqrt(s)) = s` on the kept values.  Then the model returns the list of
+    pairs `[[A_i, B_i]]` with `A_i = sqrt(s_i)·unvec(U[:,i])` (`d_out[0] × d_in[0]`, column-major),
+    `B_i = sqrt(s_i)·unvec(conj(Vh[i,:]))` (`d_out[1] × d_in[1]`), and they satisfy the defining relation
+    `Σ_i vec(A_i) vec(B_i)ᴴ = J` — for all dimensions, rectangular included. -/
+theorem choiToKraus_general_branch [DecidableEq α] (ops : RealOps α) (J : Mat α) (tol atol : α) (dim : DimArg)
+    (eig : Eigh α) (svd : Svd α) (d : ChanDim)
+    (hd : channelDimChoi J.r J.c true dim = .ok d) (hnh : isHermitianExact J = false)
+    (hU : svd.S.length = svd.U.c) (hV : svd.S.length = svd.Vh.r)
+    (hsqrt : ∀ i, i < svd.S.length → c2kKeep ops tol (svd.S.getD i 0) = true →
+      ops.sqrt (svd.S.getD i 0) * star (ops.sqrt (svd.S.getD i 0)) = svd.S.getD i 0)
+    (hdec : ∀ p q, p < J.r → q < J.c →
+      sumN svd.S.length (fun i => if c2kKeep ops tol (svd.S.getD i 0) then
+        svd.S.getD i 0 * svd.U.e p i * svd.Vh.e i q else 0) = J.e p q) :
+    ∃ as bs, choiToKraus ops J tol atol dim eig svd = .ok (KrausArg.pairs as bs) ∧
+      Shaped as d.out0 d.in0 ∧ Shaped bs d.out1 d.in1 ∧ as.length = bs.length ∧
+      Reproduces J as bs d.out0 d.in0 d.out1 d.in1 := by
+  obtain ⟨s1, s2, s3⟩ := c2kSvd_shapes ops tol svd d.out0 d.in0 d.out1 d.in1 hU hV
+  refine ⟨_, _, ?_, s1, s2, s3, c2kSvd_reproduces ops tol svd J d.out0 d.in0 d.out1 d.in1 hU hV hsqrt hdec⟩
+  simp only [choiToKraus, hd, hnh]
+  rfl
+
+/-- **`choi_to_kraus`, Hermitian indefinite branch.**  `J` Hermitian on a square operator space
+    (`d_in[0] = d_in[1]`, `d_out[0] = d_out[1]`), not positive semidefinite by the eigenvalue test; `(λ, V)`
+    any factors whose kept terms reproduce `J`, `Σ_{i kept} λ_i·V[p,i]·conj(V[q,i]) = J[p,q]`, and `sqrt`,
+    `abs`, `sign` any functions with `sqrt(|λ|)·conj(sqrt(|λ|))·conj(sign λ) = λ` on the kept values.  Then
+    the model returns the pairs `[[A_i, sign(λ_i)·A_i]]`, `A_i = sqrt(|λ_i|)·unvec(V[:,i])`, and they satisfy the
+    defining relation. -/
+theorem choiToKraus_hermitian_branch [DecidableEq α] (ops : RealOps α) (J : Mat α) (tol atol : α) (dim : DimArg)
+    (eig : Eigh α) (svd : Svd α) (d : ChanDim)
+    (hd : channelDimChoi J.r J.c true dim = .ok d) (hh : isHermitianExact J = true)
+    (hpsd : isPsdFrom ops true atol eig.evals = false) (hin : d.in1 = d.in0) (hout : d.out1 = d.out0)
+    (hV : eig.evals.length = eig.V.c)
+    (hsqrt : ∀ i, i < eig.evals.length → c2kKeep ops tol (eig.evals.getD i 0) = true →
+      ops.sqrt (ops.abs (eig.evals.getD i 0)) * star (ops.sqrt (ops.abs (eig.evals.getD i 0)))
+        * star (ops.sign (eig.evals.getD i 0)) = eig.evals.getD i 0)
+    (hdec : ∀ p q, p < J.r → q < J.c →
+      sumN eig.evals.length (fun i => if c2kKeep ops tol (eig.evals.getD i 0) then
+        eig.evals.getD i 0 * eig.V.e p i * star (eig.V.e q i) else 0) = J.e p q) :
+    ∃ as bs, choiToKraus ops J tol atol dim eig svd = .ok (KrausArg.pairs as bs) ∧
+      Shaped as d.out0 d.in0 ∧ Shaped bs d.out1 d.in1 ∧ as.length = bs.length ∧
+      Reproduces J as bs d.out0 d.in0 d.out1 d.in1 := by
+  obtain ⟨s1, s2, s3⟩ := c2kHerm_shapes ops tol eig d.out0 d.in0 hV
+  rw [hin, hout]
+  refine ⟨_, _, ?_, s1, s2, s3, c2kHerm_reproduces ops tol eig J d.out0 d.in0 hV hsqrt hdec⟩
+  simp only [choiToKraus, hd, hh, hpsd]
+  rfl
+
+/-- **`choi_to_kraus`, positive semidefinite branch.**  `J` Hermitian and positive semidefinite by the
+    eigenvalue test; factors as before with `sqrt(|λ|)·conj(sqrt(|λ|)) = λ` on the kept eigenvalues.  Then the
+    model returns the *flat* list `[A_i]`, `A_i = sqrt(|λ_i|)·unvec(V[:,i])`, and `Σ_i vec(A_i) vec(A_i)ᴴ = J`. -/
+theorem choiToKraus_psd_branch [DecidableEq α] (ops : RealOps α) (J : Mat α) (tol atol : α) (dim : DimArg)
+    (eig : Eigh α) (svd : Svd α) (d : ChanDim)
+    (hd : channelDimChoi J.r J.c true dim = .ok d) (hh : isHermitianExact J = true)
+    (hpsd : isPsdFrom ops true atol eig.evals = true)
+    (hV : eig.evals.length = eig.V.c)
+    (hsqrt : ∀ i, i < eig.evals.length → c2kKeep ops tol (eig.evals.getD i 0) = true →
+      ops.sqrt (ops.abs (eig.evals.getD i 0)) * star (ops.sqrt (ops.abs (eig.evals.getD i 0)))
+        = eig.evals.getD i 0)
+    (hdec : ∀ p q, p < J.r → q < J.c →
+      sumN eig.evals.length (fun i => if c2kKeep ops tol (eig.evals.getD i 0) then
+        eig.evals.getD i 0 * eig.V.e p i * star (eig.V.e q i) else 0) = J.e p q) :
+    ∃ as, choiToKraus ops J tol atol dim eig svd = .ok (KrausArg.flat as) ∧
+      Shaped as d.out0 d.in0 ∧ Reproduces J as as d.out0 d.in0 d.out0 d.in0 := by
+  obtain ⟨s1, _, _⟩ := c2kHerm_shapes ops tol eig d.out0 d.in0 hV
+  refine ⟨_, ?_, s1, c2kPsd_reproduces ops tol eig J d.out0 d.in0 hV hsqrt hdec⟩
+  simp only [choiToKraus, hd, hh, hpsd]
+  rfl
+
+/-- **Round trip `kraus_to_choi ∘ choi_to_kraus = id` (pairs).**  For any family with
+    `Σ_k vec(A_k) vec(B_k)ᴴ = J` (in particular the one returned by any branch of `choi_to_kraus`),
+    `kraus_to_choi` of the paired list is a matrix of the shape of `J` with the entries of `J`. -/
+theorem krausToChoi_of_reproduces (J : Mat α) (as bs : List (Mat α)) (di0 di1 do0 do1 : Nat)
+    (hJr : J.r = di0 * do0) (hJc : J.c = di1 * do1)
+    (ha : Shaped as do0 di0) (hb : Shaped bs do1 di1) (hl : as.length = bs.length) (h : as ≠ [])
+    (hvec : Reproduces J as bs do0 di0 do1 di1) :
+    ∃ J', krausToChoi (KrausArg.pairs as bs) = some J' ∧ J'.r = J.r ∧ J'.c = J.c ∧
+      ∀ p q, p < J.r → q < J.c → J'.e p q = J.e p q := by
+  obtain ⟨J', hJ', hr, hc, he⟩ := krausToChoi_eq_spec as bs di0 di1 do0 do1 ha hb hl h
+  refine ⟨J', hJ', by rw [hr, hJr], by rw [hc, hJc], ?_⟩
+  intro p q hp hq
+  obtain ⟨h1, h2, h3⟩ := index_split p di0 do0 (hJr ▸ hp)
+  obtain ⟨h4, h5, h6⟩ := index_split q di1 do1 (hJc ▸ hq)
+  have e1 := he (p / do0) (p % do0) (q / do1) (q % do1) h1 h2 h4 h5
+  have e2 := (reproduces_iff_choi J as bs di0 di1 do0 do1 hJr hJc).mp hvec (p / do0) (p % do0) (q / do1) (q % do1) h1 h2 h4 h5
+  rw [h3, h6] at e1 e2
+  rw [e1, e2]
+
+/-- **Round trip (flat list).**  The same for the flat list returned in the positive semidefinite case. -/
+theorem krausToChoi_of_reproduces_flat (J : Mat α) (ks : List (Mat α)) (d_in d_out : Nat)
+    (hJr : J.r = d_in * d_out) (hJc : J.c = d_in * d_out)
+    (hs : Shaped ks d_out d_in) (h : ks ≠ []) (hvec : Reproduces J ks ks d_out d_in d_out d_in) :
+    ∃ J', krausToChoi (KrausArg.flat ks) = some J' ∧ J'.r = J.r ∧ J'.c = J.c ∧
+      ∀ p q, p < J.r → q < J.c → J'.e p q = J.e p q := by
+  obtain ⟨J', hJ', hr, hc, he⟩ := krausToChoi_cp_eq_spec ks d_in d_out hs h (.flat ks) (Or.inl rfl)
+  refine ⟨J', hJ', by rw [hr, hJr], by rw [hc, hJc], ?_⟩
+  intro p q hp hq
+  obtain ⟨h1, h2, h3⟩ := index_split p d_in d_out (hJr ▸ hp)
+  obtain ⟨h4, h5, h6⟩ := index_split q d_in d_out (hJc ▸ hq)
+  have e1 := he (p / d_out) (p % d_out) (q / d_out) (q % d_out) h1 h2 h4 h5
+  have e2 := (reproduces_iff_choi J ks ks d_in d_in d_out d_out hJr hJc).mp hvec
+    (p / d_out) (p % d_out) (q / d_out) (q % d_out) h1 h2 h4 h5
+  rw [h3, h6] at e1 e2
+  rw [e1, e2]
+
+/-! ## `kraus_to_choi(kraus_ops, sys=1)` -/
+
+/-- **Kraus → Choi with `sys = 1`.**  The map is applied to the *first* half of the unnormalised maximally
+    entangled operator: the result is the `(do0·di0) × (do1·di1)` matrix `Σ_ij Φ(E_ij) ⊗ E_ij`, whose entry at
+    row `(a, i)`, column `(b, j)` is `Φ(E_ij)[a, b]` (the other ordering convention of the Choi matrix). -/
+theorem krausToChoi_sys1_eq_spec (as bs : List (Mat α)) (di0 di1 do0 do1 : Nat)
+    (ha : Shaped as do0 di0) (hb : Shaped bs do1 di1) (hl : as.length = bs.length) (h : as ≠ []) :
+    ∃ J, krausToChoi (KrausArg.pairs as bs) 1 = some J ∧ J.r = do0 * di0 ∧ J.c = do1 * di1 ∧
+      ∀ a i b j, a < do0 → i < di0 → b < do1 → j < di1 →
+        J.e (a * di0 + i) (b * di1 + j) = applySpec as.length (fam as) (fam bs) di0 di1 (unit i j) a b :=
+  krausToChoi_core_sys1 _ as bs di0 di1 do0 do1 _ ha hb hl h
+    (channelDimKraus_pairs as bs di0 di1 do0 do1 ha hb hl h)
+    (fun rho => by
+      have := partialChannelKraus_pairs rho as bs hl h 1 2 (fnOfList [di0, di0]) (fnOfList [di1, di1])
+      rwa [prodBefore_one, prodAfter_one_two, prodBefore_one, prodAfter_one_two] at this)
+
+/-- **`sys = 1`, completely positive forms** (flat, column, row). -/
+theorem krausToChoi_sys1_cp_eq_spec (ks : List (Mat α)) (d_in d_out : Nat) (hs : Shaped ks d_out d_in) (h : ks ≠ [])
+    (phi : KrausArg α)
+    (hform : phi = .flat ks ∨ phi = KrausArg.column ks ∨ (phi = KrausArg.row ks ∧ (ks.length = 1 ∨ 2 < ks.length))) :
+    ∃ J, krausToChoi phi 1 = some J ∧ J.r = d_out * d_in ∧ J.c = d_out * d_in ∧
+      ∀ a i b j, a < d_out → i < d_in → b < d_out → j < d_in →
+        J.e (a * d_in + i) (b * d_in + j) = applySpec ks.length (fam ks) (fam ks) d_in d_in (unit i j) a b := by
+  rcases hform with rfl | rfl | ⟨rfl, hr⟩
+  · exact krausToChoi_core_sys1 _ ks ks d_in d_in d_out d_out _ hs hs rfl h (channelDimKraus_cp ks d_in d_out hs h)
+      (fun rho => by
+        have := partialChannelKraus_flat rho ks h 1 2 (fnOfList [d_in, d_in]) (fnOfList [d_in, d_in])
+        rwa [prodBefore_one, prodAfter_one_two] at this)
+  · exact krausToChoi_core_sys1 _ ks ks d_in d_in d_out d_out _ hs hs rfl h (channelDimKraus_column ks d_in d_out hs h)
+      (fun rho => by
+        have := partialChannelKraus_column rho ks h 1 2 (fnOfList [d_in, d_in]) (fnOfList [d_in, d_in])
+        rwa [prodBefore_one, prodAfter_one_two] at this)
+  · exact krausToChoi_core_sys1 _ ks ks d_in d_in d_out d_out _ hs hs rfl h (channelDimKraus_row ks d_in d_out hs hr)
+      (fun rho => by
+        have := partialChannelKraus_row rho ks hr 1 2 (fnOfList [d_in, d_in]) (fnOfList [d_in, d_in])
+        rwa [prodBefore_one, prodAfter_one_two] at this)
+
+/-! ## `partial_channel`: the embedded Choi matrix and the forms of `dim` -/
+
+/-- **The Choi matrix of `id ⊗ Φ ⊗ id`.**  The matrix that the Choi branch of `partial_channel` hands to
+    `apply_channel` (Kronecker product of `J` with the two maximally entangled operators, permuted by
+    `[0,2,4,1,3,5]`) has, at input labels `(p,i,q)`/`(p',j,q')` and output labels `(p2,a,q2)`/`(p2',b,q2')`, the
+    entry `δ_{p p2} δ_{p' p2'} · J[(i,a),(j,b)] · δ_{q q2} δ_{q' q2'}`: it is the Choi matrix of `id ⊗ Φ_J ⊗ id`. -/
+theorem partialChannel_choi_embedding (J : Mat α) (sys n : Nat) (rd cd : Nat → Nat) (o0 o1 : Nat)
+    (hd0 : 0 < rd (sys - 1)) (hd1 : 0 < cd (sys - 1))
+    (hJr : J.r = rd (sys - 1) * o0) (hJc : J.c = cd (sys - 1) * o1)
+    (p i q p2 a q2 p' j q' p2' b q2' : Nat)
+    (hp : p < prodBefore rd sys) (hi : i < rd (sys - 1)) (hq : q < prodAfter rd n sys)
+    (hp2 : p2 < prodBefore rd sys) (ha : a < o0) (hq2 : q2 < prodAfter rd n sys)
+    (hp' : p' < prodBefore cd sys) (hj : j < cd (sys - 1)) (hq' : q' < prodAfter cd n sys)
+    (hp2' : p2' < prodBefore cd sys) (hb : b < o1) (hq2' : q2' < prodAfter cd n sys) :
+    (embedChoi J sys n rd cd).e
+        (((((p * rd (sys - 1) + i) * prodAfter rd n sys + q) * prodBefore rd sys + p2) * o0 + a) * prodAfter rd n sys + q2)
+        (((((p' * cd (sys - 1) + j) * prodAfter cd n sys + q') * prodBefore cd sys + p2') * o1 + b) * prodAfter cd n sys + q2')
+      = unit p p' p2 p2' * J.e (i * o0 + a) (j * o1 + b) * unit q q' q2 q2' :=
+  embedChoi_e J sys n rd cd o0 o1 hd0 hd1 hJr hJc p i q p2 a q2 p' j q' p2' b q2' hp hi hq hp2 ha hq2 hp' hj hq' hp2' hb hq2'
+
+omit [CommSemiring α] [StarRing α] in
+/-- **Forms of `dim` in `partial_channel`.**  A 1-d `dim` is used for rows and columns alike; a 2-row `dim`
+    gives row and column dimensions separately; `dim=None` means two subsystems with row dimensions `√rows` and
+    column dimensions `√cols`, i.e. the 2-row form `[[√rows, √rows], [√cols, √cols]]` (also for a non-square operator). -/
+theorem partialChannel_dim_forms (rho : Mat α) (d rd cd : List Nat) :
+    partialDimNorm rho (.one d) = some (d, d) ∧ partialDimNorm rho (.two rd cd) = some (rd, cd) ∧
+    (Nat.sqrt rho.r * Nat.sqrt rho.r = rho.r → Nat.sqrt rho.c * Nat.sqrt rho.c = rho.c →
+      partialDimNorm rho .none
+        = partialDimNorm rho (.two [Nat.sqrt rho.r, Nat.sqrt rho.r] [Nat.sqrt rho.c, Nat.sqrt rho.c])) := by
+  refine ⟨rfl, rfl, ?_⟩
+  intro h1 h2
+  simp [partialDimNorm, h1, h2, defaultDim]
+
+/-- **Dimension inference (Choi matrix; shared by `choi_to_kraus` and `dual_channel`).**  With
+    `dim = [[r, x], [c, y]]` whose products match the shape, `channel_dim` returns `d_in = (r, c)`,
+    `d_out = (x, y)` (and no environment dimension when `compute_env_dim=False`); `[m, n]` means `[[m, n], [m, n]]`, an
+    integer `d` means `[[d, d], [d, d]]`, `None` means the square roots of the shape; a `dim` whose products do not match
+    the shape is rejected. -/
+theorem channelDim_choi (rows cols r x c y m n d : Nat) :
+    (r * x = rows → c * y = cols → channelDimChoi rows cols true (.mat r x c y) = .ok ⟨r, c, x, y, none⟩) ∧
+    channelDimChoi rows cols true (.vec m n) = channelDimChoi rows cols true (.mat m n m n) ∧
+    channelDimChoi rows cols true (.int d) = channelDimChoi rows cols true (.mat d d d d) ∧
+    channelDimChoi rows cols true .none
+      = channelDimChoi rows cols true (.mat (Nat.sqrt rows) (Nat.sqrt rows) (Nat.sqrt cols) (Nat.sqrt cols)) ∧
+    ((r * x ≠ rows ∨ c * y ≠ cols) → channelDimChoi rows cols true (.mat r x c y) = .error DimErr.choiDim) := by
+  refine ⟨?_, rfl, rfl, rfl, ?_⟩
+  · intro h1 h2; subst h1; subst h2; exact channelDimChoi_mat r x c y
+  · intro h
+    rcases h with h | h <;> simp [channelDimChoi, expandDim, h]
+
 /-! ## the scalars of the compiled model -/
 
 /-- **The driver's Gaussian integers are an instance of the theorems' hypotheses.**  `GI` with the core-class
@@ -405,6 +628,25 @@ example :
       = some [1, 0, 0, 0, 0, 0, 1, 0, 0, 1, 0, 0, 0, 0, 0, 1] ∧
     ((krausToChoi (KrausArg.pairs as bs)).map (fun J => listOfFn 4 (fun p => (applyChoi X J).e (p / 2) (p % 2))))
       = some [1, 3, 2, 4] := by
+  decide
+
+/-- the assembly model computes and its hypotheses are satisfiable: `J = diag(4, 0, 0, -9)` (Hermitian, indefinite)
+    with the exact factors `λ = (-9, 0, 0, 4)`, `V` the corresponding permutation matrix, `sqrt` the integer square
+    root table `{9 ↦ 3, 4 ↦ 2}`: the model returns the two pairs `(3·E_11, -3·E_11)`, `(2·E_00, 2·E_00)` and
+    `kraus_to_choi` of them is `J` again -/
+example :
+    let ops : RealOps Int := ⟨fun x => if x = 9 then 3 else if x = 4 then 2 else 0, fun x => (Int.natAbs x : Int), Int.sign, Int.neg,
+      fun x y => decide (x > y), fun x y => decide (x ≥ y)⟩
+    let J : Mat Int := ⟨4, 4, fun i j => if i = j then (if i = 0 then 4 else if i = 3 then -9 else 0) else 0⟩
+    let V : Mat Int := ⟨4, 4, fun p i => if (p = 3 ∧ i = 0) ∨ (p = 1 ∧ i = 1) ∨ (p = 2 ∧ i = 2) ∨ (p = 0 ∧ i = 3) then 1 else 0⟩
+    let out := choiToKraus ops J 0 0 (.mat 2 2 2 2) ⟨[-9, 0, 0, 4], V⟩ ⟨⟨0, 0, fun _ _ => 0⟩, [], ⟨0, 0, fun _ _ => 0⟩⟩
+    (match out with
+      | .ok phi => (phi.split.map fun ab => (ab.1.map fun m => listOfFn 4 (fun p => m.e (p / 2) (p % 2)),
+                                              ab.2.map fun m => listOfFn 4 (fun p => m.e (p / 2) (p % 2))))
+      | .error _ => none) = some ([[0, 0, 0, 3], [2, 0, 0, 0]], [[0, 0, 0, -3], [2, 0, 0, 0]]) ∧
+    (match out with
+      | .ok phi => (krausToChoi phi).map (fun K => listOfFn 16 (fun p => K.e (p / 4) (p % 4)))
+      | .error _ => none) = some [4, 0, 0, 0, 0, 0, 0, 0, 0, 0, 0, 0, 0, 0, 0, -9] := by
   decide
 
 end Toq.C04
